@@ -159,6 +159,12 @@ def run(tier: str) -> int:
                                "documented": mv})
         if len(samples) < 5 and i % 211 == 0:
             samples.append({"nodes": nodes, "initial_context": ctx0, "outcome": mv})
+    # ---- parameter sweeps are part of the component library: pipelines with a sweep node, compared with the sweep model of C03
+    from props import c03
+    sweep_stats = {"cases": 0, "kinds": {}, "modes": {}, "specs": {}, "real_outcomes": {}, "elements_compared": 0, "ranges_checked": 0,
+                   "surrounded": 0}
+    c03.sweep_cases(rep, rnd, 120 if tier == "quick" else 1200, sweep_stats)
+    stats["with_sweep_node"] = {k: sweep_stats[k] for k in ("cases", "kinds", "real_outcomes", "elements_compared")}
     rep.coverage.update({
         "evaluations": stats["cases"],
         "distinct_nontrivial": len(distinct),
